@@ -43,3 +43,9 @@ func VerifMsgTarget(msgType string, outbound bool) string {
 
 	return s.Name()
 }
+
+// VerifSync returns once the internal listener has finished every callback queued before this call
+// (the callback channel is unbuffered and the listener is sequential; a no-op state does nothing).
+func (s *Service) VerifSync() {
+	s.callbacks <- &metaData{state: &noOp{}}
+}
